@@ -178,6 +178,14 @@ example : (mkRequest { Skeleton.current with stubRequestArgsInitEmpty := false }
 example : (mkRequest { Skeleton.current with stubCtxSkipped := false } idCodec "id" "F" [.ctx]).field "args"
     = some (.arr [.raw "<context>"]) := rfl
 
+/-- `mkResponse` is given "the request's call id": in the source that is `req.Call` read by the handler
+    goroutine when it builds the response, long after the read loop may have decoded later frames.  The
+    request (and response) structs are declared inside the loop body, so every frame has its own and a
+    later frame cannot overwrite the id an earlier handler still needs (checked against the regenerated
+    skeleton). -/
+theorem C17_frame_struct_per_iteration :
+    Skeleton.current.reqFrameFreshPerIteration = true ∧ Skeleton.current.respFrameFreshPerIteration = true := by decide
+
 end Panrpc.Wire
 
 #print axioms Panrpc.Wire.C17_request_shape
@@ -187,3 +195,4 @@ end Panrpc.Wire
 #print axioms Panrpc.Wire.C17_empty_message_sent_as_nil
 #print axioms Panrpc.Wire.C17_envelope_xor
 #print axioms Panrpc.Wire.C17_foreign_accepted
+#print axioms Panrpc.Wire.C17_frame_struct_per_iteration
